@@ -39,6 +39,8 @@ static std::optional<Failure> check_one(Run &R, const Bytes &u) {
     // an A-form that begins with '[' (ignorable code points in front of a bracket) is no host name in A-label spelling but the
     // syntax of an address literal, which the library dispatches differently: outside "domains made of IDNA2008-valid labels"
     if (!a.empty() && a[0] == '[') { R.count("a-form-looks-like-a-literal(not judged)"); return std::nullopt; }
+    // ... and an A-form that contains '@' (U+FF20 FULLWIDTH COMMERCIAL AT and the like map to it) changes where the address is split
+    if (a.find('@') != Bytes::npos) { R.count("a-form-contains-@(not judged)"); return std::nullopt; }
     bool converted = a != u;
     if (converted) { R.nontrivial(hashs(u)); R.count(ascii ? "ascii-mapped(case)" : "converted"); if (!ascii) R.sample("converted", show(u) + " -> " + a, 4); }
     else R.count("unchanged");
